@@ -13,7 +13,7 @@ form (no depth limit, no max_seq_len, insertion order) is read by the reader of 
 expression grammar the printers use) as exactly `erase v`, and nothing is left over.  Any fuel ≥ `need v` works. -/
 theorem canon_reads_back' (v : PyVal) (hin : inRd v = true) (ctx : Ctx) (hf : Free ctx) (f : Nat) (hfu : need v ≤ f) :
     parseV f (canonW ctx v none) = some (erase v, []) := by
-  have := (canon_reads v hin ctx hf none (fun _ => rfl)).reads f hfu []
+  have := (canon_reads v hin ctx hf none (fun _ => rfl)).reads f hfu [] followOk_nil
   simpa using this
 
 /-- **C01.canon_reads_back** — the built-in literal types: the same container type at every position (a one-element tuple
